@@ -868,6 +868,27 @@ class HDF5FileSources(Contract):
                     o = Obligation(f'HDF5File::{short}/{len(params(fdef))}#one_record.{dsn[0] if dsn else k_}', {'C10', 'C14'}, [], z3.BoolVal(bool(one)), 'postcondition', None,
                                    'each call appends exactly one record to the dataset (record count argument left at 1)')
                     ex.obls.append(o)
+        # ---- appendRFKicks(kicks): as many records as the list has entries, read from that list, into the RF-kick dataset (C19)
+        rfk = [f for f in tu.funcs.get('vfps::HDF5File::appendRFKicks', []) if body(f) is not None]
+        if len(rfk) != 1:
+            raise ExtractionError('HDF5File::appendRFKicks not found')
+        pnm = [p_.get('name') for p_ in params(rfk[0])]
+        acalls = [c_ for c_ in _walk(rfk[0]) if c_.get('kind') in ('CallExpr', 'CXXMemberCallExpr') and
+                  ((lambda h_: (h_.get('referencedDecl') or {}).get('name') == '_appendData' or h_.get('name') == '_appendData')(
+                      (lambda c0: c0['inner'][0] if c0.get('kind') == 'ImplicitCastExpr' else c0)(c_['inner'][0])))]
+        ok_rf, why = False, 'no single _appendData call'
+        if len(acalls) == 1 and len(pnm) == 1:
+            args = acalls[0]['inner'][1:]
+            dsn = [x.get('name') for x in _walk(args[0]) if x.get('kind') == 'MemberExpr']
+
+            def member_of_param(a_, meth):
+                ms = [x for x in _walk(a_) if x.get('kind') == 'CXXMemberCallExpr' and x['inner'][0].get('name') == meth]
+                return len(ms) == 1 and [(y.get('referencedDecl') or {}).get('name') for y in _walk(ms[0]) if y.get('kind') == 'DeclRefExpr'] == [pnm[0]] and \
+                    not any(y.get('kind') in ('BinaryOperator', 'UnaryOperator') for y in _walk(a_))
+            ok_rf = dsn[:1] == ['_dynamicRFKick'] and len(args) == 3 and member_of_param(args[1], 'data') and member_of_param(args[2], 'size')
+            why = f'dataset {dsn[:1]}, {len(args)} arguments'
+        ex.obls.append(Obligation('HDF5File::appendRFKicks#whole_list_into_the_rf_kick_dataset', {'C19', 'C10'}, [], z3.BoolVal(bool(ok_rf)), 'postcondition', None,
+                                  f'_appendData(_dynamicRFKick, {pnm[0] if pnm else "?"}.data(), {pnm[0] if pnm else "?"}.size()) — {why}'))
         # ---- constructor: axis datasets
         ctors = tu.funcs.get('vfps::HDF5File::HDF5File', [])
         if len(ctors) != 1:
